@@ -152,6 +152,9 @@ class LinearAlgebraMethods(object):
             raise ZeroDivisionError('matrix is numerically singular')
         # cache decomposition
         if not overwrite and isinstance(orig, ctx.matrix):
+            # invalidate, store, validate: an interrupt between the stores
+            # must not leave factors under the wrong precision
+            orig._LU_prec = 0
             orig._LU = (A, p)
             orig._LU_prec = ctx.prec
         return A, p
